@@ -236,7 +236,7 @@ func loopSkipsWithout(g *chk.Graph, rs *ast.RangeStmt, must func(ast.Node) bool,
 			}
 		}
 		for k, s := range b.Succs {
-			if except != nil && g.EdgeImplies(b, k, except) {
+			if !except.IsNone() && g.EdgeImplies(b, k, except) {
 				continue
 			}
 			if s == loop {
